@@ -25,7 +25,10 @@ Docs == <<
   [items |-> <<BL, H(1), BL, F(1,0,1), H(2), BL, BL, H(3), F(2,1,1), BL, H(1)>>, term |-> TRUE, origins |-> {"parsed"}],
   [items |-> <<F(1,0,1), BL, F(2,0,1)>>, term |-> FALSE, origins |-> {"parsed"}],
   [items |-> <<F(1,0,1), BL, H(1), BL, F(2,0,1), BL, F(1,2,2), C(1,3)>>, term |-> TRUE, origins |-> {"parsed"}],
-  [items |-> <<F(1,0,1), H(1)>>, term |-> FALSE, origins |-> {"parsed"}]
+  [items |-> <<F(1,0,1), H(1)>>, term |-> FALSE, origins |-> {"parsed"}],
+  \* a trailing top-level comment as the unterminated last line (after reformatting it follows the paragraph directly)
+  [items |-> <<F(1,0,1), BL, H(1)>>, term |-> FALSE, origins |-> {"parsed"}],
+  [items |-> <<H(1)>>, term |-> FALSE, origins |-> {"parsed"}]
 >>
 
 KeysSet == {1, 2}
